@@ -338,7 +338,7 @@ theorem C16_mi_symmetric_wrapper (win : K → K → K) (lg : K → K) (tiny : K)
     miLoss win lg tiny nz x y mask B cen = miLoss win lg tiny nz y x mask B cen :=
   miLoss_symm win lg tiny nz x y mask B cen h
 
-/-- masked MI (repair PENDING-F16BD): samples where the mask is 0 do not influence the value —
+/-- masked MI (repair d5da1fc / 4a8506f): samples where the mask is 0 do not influence the value —
     changing both images there changes nothing (any `win`, `lg`, bins, batch). -/
 theorem C16_mi_mask_ignored (win : K → K → K) (lg : K → K) (tiny : K) (normalized : Bool) (N B S : Nat)
     (cen x y x' y' m : Nat → K) (h : ∀ i, i < N * S → m i ≠ 0 → x i = x' i ∧ y i = y' i) :
@@ -386,7 +386,7 @@ theorem C16_mi_mask_selected_loss (win : K → K → K) (lg : K → K) (tiny : K
   unfold miLossCore
   simp only [Option.map, sumTo, Nat.zero_mul, Nat.zero_add, h0]
 
-/-! ## NCC with a mask (repair PENDING-F16BD): weighted means, centred images times mask -/
+/-! ## NCC with a mask (repair d5da1fc / 4a8506f): weighted means, centred images times mask -/
 
 /-- identical images: `ε / (b² + ε)` with `b = Σ ((s − mean_m s)·m)²`, i.e. exactly 0 for `ε = 0`. -/
 theorem C16_ncc_masked_identical (n : Nat) (s m : Nat → K) (eps : K)
